@@ -20,7 +20,8 @@ import (
 // TODO: нахуя нужно битовое и на -4??
 func GenerateMessageId() int64 {
 	const billion = 1000 * 1000 * 1000
-	unixnano := verifNow(time.Now()).UnixNano()
+	unixnano := time.Now().UnixNano()
+	unixnano = verifNanos(unixnano)
 	seconds := unixnano / billion
 	nanoseconds := unixnano % billion
 	return (seconds << 32) | (nanoseconds & -4)
